@@ -566,6 +566,18 @@ func (w *World) FieldByType(p *packages.Package, structName, role string, pred f
 			}
 		}
 	}
+	if len(found) == 0 {
+		// the representation changed (another key type, another container): the field that
+		// carried the role when the table was frozen keeps it, and the rules about the
+		// role's representation (key components, guarded-by) judge the new form
+		if hint, ok := roleHints[role]; ok {
+			for i := 0; i < st.NumFields(); i++ {
+				if st.Field(i).Name() == hint {
+					return st.Field(i)
+				}
+			}
+		}
+	}
 	if len(found) != 1 {
 		undecidedf("role %q: expected exactly one matching field in %s.%s, found %d", role, p.PkgPath, structName, len(found))
 	}
@@ -612,4 +624,14 @@ func (w *World) SSAFunc(fi *FuncInfo) *ssa.Function {
 		undecidedf("no SSA function for %s", fi.Name())
 	}
 	return fn
+}
+
+// FuncAt returns the declared function whose body contains pos, or nil.
+func (w *World) FuncAt(pos token.Pos) *FuncInfo {
+	for _, fi := range w.Decls {
+		if fi.Decl.Body != nil && fi.Decl.Pos() <= pos && pos < fi.Decl.End() {
+			return fi
+		}
+	}
+	return nil
 }
